@@ -181,4 +181,17 @@ PROPS = {
         "trusted_base": ["the Sylvester / subresultant matrices of Model/Resultant.lean are the executable specification (classical determinantal definition); C04_det proves that the model's Laplace expansion is Matrix.det of the denoted matrix for every size; the identification of that determinant with Mathlib's Polynomial.resultant (a reindexing of the same matrix) is not formalised"],
         "assumptions": ["Sylvester order capped at 7 (larger instances are skipped and counted)"],
     },
+    "C06": {
+        "level": "proof",
+        "lean_targets": ["LP.Props.C06"],
+        "harnesses": [{"name": "h_roots", "quick": 1500, "thorough": 30000}],
+        "select": lambda t: t[1] == "roots",
+        "nontrivial": lambda t, r: True,
+        "rule": "non-constant integer polynomials of degree <= 9 built from irreducible blocks with known root structure (rational, dyadic, "
+                "quadratic/cubic/quartic irrational, no real roots, clusters at distance 2^-k, magnitudes 2^-10..2^3, multiplicities 1-3), "
+                "Mignotte-like and random polynomials; isolation, counting over rational intervals of every strictness whose ends are often "
+                "roots, counting over R, Sturm sequences. Every case is non-trivial; distinct = distinct line.",
+        "trusted_base": ["the verified root counter (Model/RootCount) answers `none` when its fuel is exhausted; such cases are counted as skipped"],
+        "assumptions": ["degree <= 9"],
+    },
 }
